@@ -312,10 +312,11 @@ let c15 h : string list =
   let calls = calls_of h in
   let hits = ref [] in
   let shut = ref false and parked = ref 0 and k = ref 0 in
+  let shut_t = ref max_int in
   let parked_calls = Hashtbl.create 8 in
   List.iter (fun ln ->
       match ln.src, ln.w with
-      | "L", ["shutdown"] -> shut := true
+      | "L", ["shutdown"] -> shut := true; if !shut_t = max_int then shut_t := ln.t
       | "D", "act" :: "enq" :: _ ->
           let c = calls.(!k) in
           (* a call is parked at the hook only if it passes validation: it then stays pending until released *)
@@ -325,6 +326,10 @@ let c15 h : string list =
       | "D", ["act"; "release"; c] -> if Hashtbl.mem parked_calls (ios c) then (Hashtbl.remove parked_calls (ios c); decr parked)
       | "D", ["sample"; _; buf; _; pend] ->
           if ios buf > h.bufcap then hits := (Printf.sprintf "c15:overfull t=%d OperationsInBuffer()=%s exceeds the buffer size %d" ln.t buf h.bufcap) :: !hits;
+          (* v2 empties the buffer at shutdown and every caller, blocked or later, gets an error from then on: an
+             operation found in the buffer afterwards was accepted by a call that had to fail *)
+          if h.gen = 2 && ln.t > !shut_t && ios buf > 0 then
+            hits := (Printf.sprintf "c15:accepted-at-shutdown t=%d OperationsInBuffer()=%s after the shutdown event of t=%d: an Enqueue that was blocked or came later returned without an error" ln.t buf !shut_t) :: !hits;
           if not !shut && ios pend - !parked > 0 && ios buf < h.bufcap && not h.errfull then
             hits := (Printf.sprintf "c15:blocked-with-space gen=%d t=%d %d Enqueue calls are blocked although the buffer holds %s of %d" h.gen ln.t (ios pend - !parked) buf h.bufcap) :: !hits;
           if h.errfull && not !shut && ios pend - !parked > 0 then
@@ -369,6 +374,10 @@ let c16 h : string list =
    | Some (t, true) when h.ended && h.busy_fd = 0 && h.busy_audit = 0 && h.busy_cap = 0 ->
        hits := (Printf.sprintf "c16:not-terminated t=%d stop was requested on a started Batcher but there is no shutdown event by the end (a pause time later)" t) :: !hits
    | _ -> ());
+  (* an Enqueue made by a listener in answer to the shutdown event: the Batcher is shut down by then *)
+  List.iter (fun ln -> match ln.src, ln.w with
+      | "D", ["shutenq"; r] -> if ios r <> 6 then hits := (Printf.sprintf "c16:enqueue-in-shutdown-listener gen=%d t=%d an Enqueue made in answer to the shutdown event returned %s instead of the shutdown error" h.gen ln.t (if r = "0" then "no error" else "code " ^ r)) :: !hits
+      | _ -> ()) h.lines;
   if !shut_t >= 0 then
     Array.iter (fun c ->
         if c.ct > !shut_t && not c.nil && c.cw >= 0 then
@@ -398,6 +407,19 @@ let c13 h : string list =
       | "L", (("batch" | "request" | "giveme" | "auditskip" | "auditpass" | "auditfail" | "capread" | "flushstart" | "shutdown") as k) :: _ ->
           if !pause_t >= 0 then hits := (Printf.sprintf "c13:activity-while-paused t=%d %s between pause and resume" ln.t k) :: !hits
       | _ -> ()) h.lines;
+  (* Pause() calls made while already paused do not extend the pause: every pause event answers a Pause() made while
+     the Batcher was running - at or after Start, at or after the previous resume (calls of that very instant
+     included) - or the Pause() by which a listener answers one of the first react_pause resume events *)
+  (let lower = ref (-1) and last_call = ref (-1) and nres = ref 0 and last_res = ref (-1) in
+   List.iter (fun ln ->
+       match ln.src, ln.w with
+       | _, ["startret"; "1"] -> if !lower < 0 then lower := ln.t
+       | "D", ["act"; "pause"] -> last_call := ln.t
+       | "L", ["resume"] -> incr nres; last_res := ln.t; lower := ln.t; if !nres <= h.react_pause then last_call := ln.t
+       | "L", ["pause"; _] ->
+           if !lower >= 0 && !last_call < !lower then
+             hits := (Printf.sprintf "c13:pause-extended t=%d a pause begins although no Pause() was made since the Batcher was last running (last call at %d, running since %d)" ln.t !last_call !lower) :: !hits
+       | _ -> ()) h.lines);
   (* Pause() works again after every resume: the first react_pause resume events are answered by a Pause() from a
      listener's own goroutine; on a Batcher that nobody has asked to stop, a pause event follows in the same instant *)
   if h.react_pause > 0 && h.busy_fd = 0 && h.busy_audit = 0 && h.busy_cap = 0 then begin
@@ -704,6 +726,50 @@ let c08 h : string list =
       | _ -> if h.gen = 1 && !cyc_t >= 0 && ln.t <> !cyc_t then close ()) h.lines;
   List.rev !hits
 
+(* automatic cycles: a running, unpaused Batcher starts a cycle on every FlushInterval tick (the grid of the ticker
+   created by Start).  v2 raises an event at the start of each cycle; v1 shows a cycle through what it releases: it
+   always dispatches at least one buffered operation, so a tick that finds operations accepted before it must
+   raise a batch.  Scenarios with listeners or a limiter that keep the loop busy are left to the replay. *)
+let c08_ticks h : string list =
+  let hits = ref [] in
+  let slow = h.busy_fd > 0 || h.busy_audit > 0 || h.busy_cap > 0 in
+  if not slow then begin
+    let interval = eff h.flush (100 * ms) in
+    let start_t = ref (-1) and shut_t = ref max_int and stop_t = ref max_int in
+    let pauses = ref [] and cur_p = ref (-1) in
+    let cyc = Hashtbl.create 64 and bat = Hashtbl.create 64 in
+    let deltas = ref [] in   (* (time, change of the number of buffered operations) *)
+    List.iter (fun ln ->
+        match ln.src, ln.w with
+        | _, ["startret"; "1"] -> if !start_t < 0 then start_t := ln.t
+        | "D", ["act"; "stop"] -> if !stop_t = max_int then stop_t := ln.t
+        | "L", ["shutdown"] -> if !shut_t = max_int then shut_t := ln.t
+        | "L", ["pause"; _] -> cur_p := ln.t
+        | "L", ["resume"] -> if !cur_p >= 0 then pauses := (!cur_p, ln.t) :: !pauses; cur_p := -1
+        | "L", ["flushstart"] -> tbl_add cyc ln.t 1
+        | "L", "batch" :: rest -> let (_, ids, _) = ids_of rest in tbl_add bat ln.t 1; deltas := (ln.t, - List.length ids) :: !deltas
+        | _, ["enqret"; _; "0"] -> deltas := (ln.t, 1) :: !deltas
+        | _ -> ()) h.lines;
+    if !cur_p >= 0 then pauses := (!cur_p, max_int) :: !pauses;
+    let last_t = List.fold_left (fun a ln -> max a ln.t) 0 (List.filter (fun ln -> ln.src = "D") h.lines) in
+    let buffered_before t = List.fold_left (fun a (u, d) -> if u < t then a + d else a) 0 !deltas in
+    if !start_t >= 0 then begin
+      let in_pause t = List.exists (fun (a, b) -> a <= t && t <= b) !pauses in
+      let k = ref 1 in
+      while !start_t + !k * interval < min (min !shut_t !stop_t) last_t do
+        let t = !start_t + !k * interval in
+        if not (in_pause t) then begin
+          if h.gen = 2 && tbl_get cyc t = 0 then
+            hits := (Printf.sprintf "c08:tick-missed t=%d no cycle starts on a FlushInterval tick of a running, unpaused Batcher" t) :: !hits;
+          if h.gen = 1 && buffered_before t > 0 && tbl_get bat t = 0 then
+            hits := (Printf.sprintf "c08:tick-missed t=%d %d operations were accepted before this FlushInterval tick of a running, unpaused Batcher and none is released on it" t (buffered_before t)) :: !hits
+        end;
+        incr k
+      done
+    end
+  end;
+  List.rev !hits
+
 let c11 h = accounting h
 let c03 h =
   accounting ~check_inflight:false h
@@ -720,7 +786,7 @@ let c10 h =
 let monitor (pid : string) (h : hist) : string list =
   match pid with
   | "C01" -> c01 h @ c08 h | "C02" -> c02 h | "C03" -> c03 h | "C05" -> c05 h
-  | "C08" -> c08 h @ c08_flush h @ c01 h @ List.filter (fun s -> String.length s > 22 && String.sub s 0 22 = "c15:blocked-with-space") (c15 h)
+  | "C08" -> c08 h @ c08_ticks h @ c08_flush h @ c01 h @ List.filter (fun s -> String.length s > 22 && String.sub s 0 22 = "c15:blocked-with-space") (c15 h)
   | "C10" -> c10 h | "C11" -> c11 h | "C12" -> c12 h | "C13" -> c13 h @ c01 h | "C14" -> c14 h
   | "C15" -> c15 h | "C16" -> c16 h | "C19" -> c19 h
   | "C20" ->
